@@ -240,5 +240,6 @@ OnReturn(C, m, exit, hang, stderrKind, failedList, skippedList, newRows, bannerA
                                               t \in DOMAIN m.outcome /\ m.outcome[t] = "success"}),
                  "RowsOnlyForExit0")
           \cup V(~m.aborted \/ hang \/ m.liveAtAbort \subseteq m.killed \cup {t \in DOMAIN m.exitst : TRUE}, "AllLiveKilled")
-          \cup V(~m.aborted \/ hang \/ (exit = 1 /\ stderrKind = "ERROR"), "AbortedNotInternal")]
+          (* ... and it SAYS that it was aborted (bannerAborted: the abort message was printed), not something else *)
+          \cup V(~m.aborted \/ hang \/ (exit = 1 /\ stderrKind = "ERROR" /\ bannerAborted), "AbortedNotInternal")]
 =============================================================================
